@@ -352,7 +352,7 @@ def run_timing(ctx, only=None):
         for _ in range(ctx.scale(60, 1500)):
             vals = [rng.choice([0x80, 0x90, rng.randrange(256)]), rng.choice([0xD2, 0x52, rng.randrange(256)]), rng.choice([7, 0, 65535, rng.randrange(65536)]), 0]
             vals += [rng.choice([0, 1, 2 ** 31, 2 ** 32 - 1, rng.getrandbits(32)]) for _ in range(6)]
-            now = rng.choice([rng.getrandbits(64), (0x83AA7E80 + rng.getrandbits(31)) << 32 | rng.getrandbits(32), 2 ** 64 - 1, 2 ** 32])
+            now = rng.choice([rng.getrandbits(64), (0x83AA7E80 + rng.getrandbits(30)) << 32 | rng.getrandbits(32), 2 ** 64 - 1, 2 ** 32])
             cases.append({"kind": "timing", "cls": "TimingPacket", "data": ref_enc("TimingPacket", vals).hex(), "now": now})
     lines = []
     for c in cases:
